@@ -120,6 +120,22 @@ def _watchdog_call(fn):
     return box.get("res"), box.get("exc"), False
 
 
+def safe_feed(fe, conn, data):
+    """fe.feed(conn, data) under the watchdog.  The threaded drivers have their own hand-off watchdog; the asyncio / Twisted drivers
+    run the handler in the caller's thread, so the call itself is supervised.  After a hang nothing more is fed in this process."""
+    if POISONED:
+        return {"writes": [], "raised": "", "closed": 1, "note": "skipped after a hang"}
+    if fe.name in ("aioTcp", "aioUdp", "twTcp", "twUdp"):
+        r, ex, hung = _watchdog_call(lambda: fe.feed(conn, data))
+        if hung:
+            POISONED.append(fe.name)
+            return {"writes": [], "raised": "HANG", "closed": 0}
+        if ex is not None:
+            raise ex
+        return r
+    return fe.feed(conn, data)
+
+
 class _LoopSock:
     """A blocking scripted socket for a handler whose serving loop runs in its own thread, with a strict hand-off: the driver
     queues one item (bytes, the idle time-out marker, or b"" = the peer closed) and waits until the handler has consumed it and
